@@ -20,11 +20,13 @@ import (
 	"strconv"
 	"strings"
 	"sync"
+	"syscall"
 	"time"
 
 	"github.com/fatedier/frp/pkg/config/types"
 	v1 "github.com/fatedier/frp/pkg/config/v1"
 	"github.com/fatedier/frp/pkg/msg"
+	netpkg "github.com/fatedier/frp/pkg/util/net"
 	"github.com/fatedier/frp/pkg/util/util"
 	"github.com/fatedier/frp/server/controller"
 
@@ -368,6 +370,7 @@ type sess struct {
 }
 
 type world struct {
+	smallRcvNext bool // the next login uses a socket with a tiny receive buffer (see clog)
 	addr                         string
 	srv                          *hx.Server
 	rc                           *controller.ResourceController
@@ -603,7 +606,15 @@ func (w *world) login() int {
 	w.keepalive()
 	c := w.nextSid
 	runID := fmt.Sprintf("c10-%s-%d", w.runTag, c)
-	p, resp, err := w.srv.Login(hx.LoginOpts{RunID: runID, PoolCount: 0})
+	var p *hx.Peer
+	var resp *msg.LoginResp
+	var err error
+	if w.smallRcvNext {
+		w.smallRcvNext = false
+		p, resp, err = loginSmallRcv(w.srv, runID)
+	} else {
+		p, resp, err = w.srv.Login(hx.LoginOpts{RunID: runID, PoolCount: 0})
+	}
 	if err != nil || p == nil {
 		w.harnessFail(fmt.Sprint("scripted login failed: ", err, resp))
 		return 0
@@ -1105,4 +1116,68 @@ func (w *world) visitorInFlight(c int, name string) {
 	}
 	time.Sleep(150 * time.Millisecond)
 	w.rec.count("visitor-in-flight")
+}
+
+
+// clog: session c sends valid Pings without ever reading the Pongs until its own writes stall, i.e. until the
+// server's send queue is full and its read loop is blocked in Send.  Returns whether that state was reached.
+func (w *world) clog(c int) bool {
+	s := w.peers[c]
+	if s == nil {
+		return false
+	}
+	if tc, ok := s.p.Conn.(*net.TCPConn); ok {
+		_ = tc.SetReadBuffer(2048)
+	}
+	deadline := time.Now().Add(4 * time.Second)
+	sent := 0
+	for time.Now().Before(deadline) {
+		_ = s.p.Conn.SetWriteDeadline(time.Now().Add(600 * time.Millisecond))
+		if err := s.p.Ping(true); err != nil {
+			_ = s.p.Conn.SetWriteDeadline(time.Time{})
+			w.rec.count("clogged")
+			w.rec.count(fmt.Sprintf("clog-pings:%dk", sent/1000))
+			return true
+		}
+		sent++
+	}
+	_ = s.p.Conn.SetWriteDeadline(time.Time{})
+	return false
+}
+
+
+// loginSmallRcv: hx.Server.Login over a socket whose receive buffer is set to the minimum BEFORE the connection
+// is established, so that the peer (frps) can have only a few kilobytes in flight towards a client that does not read.
+func loginSmallRcv(srv *hx.Server, runID string) (*hx.Peer, *msg.LoginResp, error) {
+	d := net.Dialer{Timeout: 2 * time.Second, Control: func(network, address string, c syscall.RawConn) error {
+		return c.Control(func(fd uintptr) { _ = syscall.SetsockoptInt(int(fd), syscall.SOL_SOCKET, syscall.SO_RCVBUF, 2048) })
+	}}
+	conn, err := d.Dial("tcp", net.JoinHostPort(srv.Addr, fmt.Sprint(srv.Port)))
+	if err != nil {
+		return nil, nil, err
+	}
+	ts := time.Now().Unix()
+	lm := &msg.Login{Version: "0.61.0", Hostname: "h", Os: "linux", Arch: "amd64", PrivilegeKey: util.GetAuthKey(hx.DefaultToken, ts),
+		Timestamp: ts, RunID: runID, Metas: map[string]string{}}
+	if err := msg.WriteMsg(conn, lm); err != nil {
+		conn.Close()
+		return nil, nil, err
+	}
+	_ = conn.SetReadDeadline(time.Now().Add(5 * time.Second))
+	var resp msg.LoginResp
+	if err := msg.ReadMsgInto(conn, &resp); err != nil {
+		conn.Close()
+		return nil, nil, err
+	}
+	_ = conn.SetReadDeadline(time.Time{})
+	if resp.Error != "" {
+		conn.Close()
+		return nil, &resp, nil
+	}
+	rw, err := netpkg.NewCryptoReadWriter(conn, []byte(srv.Cfg.Auth.Token))
+	if err != nil {
+		conn.Close()
+		return nil, &resp, err
+	}
+	return &hx.Peer{S: srv, Conn: conn, RW: rw, RunID: resp.RunID, Token: hx.DefaultToken}, &resp, nil
 }
